@@ -19,6 +19,9 @@ func (p *watPrinter) printGlobals() error {
 		if g.Name != "" {
 			fmt.Fprintf(p.w, " %s", watPrinter_identOrIndex(g.Name))
 		}
+		if g.Name == "" && g.ExportName != "" && !p.hasExportField(token.GLOBAL, g.ExportName) {
+			fmt.Fprintf(p.w, " (export %q)", g.ExportName)
+		}
 		if g.Mutable {
 			fmt.Fprintf(p.w, " (mut %v)", g.Type)
 		} else {
